@@ -61,14 +61,30 @@ def fresh_env():
     return env
 
 
+class _Slow(Exception):
+    pass
+
+
+def _alarm(signum, frame):
+    raise _Slow()
+
+
 def outcome(fn):
+    import signal
+
+    signal.signal(signal.SIGALRM, _alarm)
+    signal.setitimer(signal.ITIMER_REAL, 3.0)
     try:
         v = fn()
+        r = repr(v)
+    except _Slow:
+        return ("slow",)
     except RecursionError:
         raise
     except Exception as e:
         return ("exc", type(e).__name__)
-    r = repr(v)
+    finally:
+        signal.setitimer(signal.ITIMER_REAL, 0)
     if " at 0x" in r or "<function" in r or "<generator" in r:
         return ("type", type(v).__name__)
     return ("value", type(v).__name__, r)
@@ -111,7 +127,7 @@ def reemit_one(src, res, e2e):
         res.count("reemit_dump_differs")
         o1 = outcome(lambda: eval(src, fresh_env()))
         o2 = outcome(lambda: eval(out, fresh_env()))
-        if o1 != o2:
+        if o1 != o2 and "slow" not in (o1[0], o2[0]):
             res.violate("reemit-changes-value", "%r re-emitted as %r: %r vs %r" % (src, out, o1, o2), witness=src,
                         replay_case={"kind": "expr", "src": src})
             return
@@ -122,7 +138,8 @@ def reemit_one(src, res, e2e):
 def end_to_end(src, res):
     T = _st["Template"]
     native = outcome(lambda: eval(src, fresh_env()))
-    if native[0] == "exc" and native[1] in ("RecursionError", "MemoryError"):
+    if native[0] == "slow" or (native[0] == "exc" and native[1] in ("RecursionError", "MemoryError")):
+        res.count("e2e_skipped_slow_or_memory")
         return
     top = ast.parse(src, mode="eval").body
     if isinstance(top, (ast.Tuple, ast.NamedExpr, ast.GeneratorExp, ast.Starred)) and not src.startswith("("):
@@ -136,6 +153,14 @@ def end_to_end(src, res):
     if '"' in src or "\n" in src:
         forms.pop("def-default")
         forms.pop("page-default")
+    for nd in ast.walk(top):
+        if isinstance(nd, ast.FormattedValue) and any(
+            isinstance(x, (ast.Lambda, ast.GeneratorExp)) or (isinstance(x, ast.Name) and x.id == "f") for x in ast.walk(nd.value)
+        ):
+            # the text of a function/generator repr (qualname, address) differs between a template
+            # module and native eval: the value is not comparable
+            res.count("e2e_skipped_function_repr")
+            return
     for nd in ast.walk(top):
         if isinstance(nd, ast.FormattedValue) and any(
             isinstance(x, (ast.JoinedStr, ast.Constant)) and (isinstance(x, ast.JoinedStr) or isinstance(x.value, (str, bytes)))
@@ -155,7 +180,7 @@ def end_to_end(src, res):
             return t.module.OUT[0]
 
         got = outcome(run)
-        if got != native:
+        if got != native and got[0] != "slow":
             res.violate("e2e-value", "%s with expression %r: template gives %r, native eval gives %r" % (form, src, got, native),
                         witness="%s %s" % (form, src), replay_case={"kind": "expr", "src": src, "e2e": True})
 
